@@ -49,7 +49,7 @@ func addrField(v ssa.Value) (named *types.Named, field string, base ssa.Value, o
 			if inner, isFA := x.X.(*ssa.FieldAddr); isFA && n != nil {
 				_ = inner
 			}
-			return n, st.Field(x.Field).Name(), x.X, n != nil
+			return n, core.FieldName(st.Field(x.Field)), x.X, n != nil
 		default:
 			return nil, "", nil, false
 		}
